@@ -234,6 +234,10 @@ def run(ctx):
         if held:
             x = hc[0]
             op = x.normalized(lambda o: any(a[0] == "arg" for a in o) and not vf.has_call(o, c.WB + "last_confirmed_height"), lambda o: vf.has_call(o, c.WB + "last_confirmed_height"), fl)
+            # both operands are the plain values (no arithmetic on either side)
+            plain = all(not any(y[0] == "binop" for y in vf.producers(ap, side)) for side in (x.l, x.r))
+            if not plain:
+                op = None
             behind = x.true_edges if op == "Lt" else (x.false_edges if op == "Ge" else None)
             held = behind is not None
             if held:
